@@ -29,6 +29,10 @@ ASSUMPTIONS = ["header['NAXIS2'] and the band tuple are Python ints",
 
 
 MUTANTS = [
+    ("BSCALE applied to the global row range of a local block",
+     "AegeanTools/fits_tools.py",
+     "        data *= header['BSCALE']",
+     "        data[row_min:row_max, :] *= header['BSCALE']", "C20-R6"),
     ("compressed files recognised by truth value", "AegeanTools/fits_tools.py",
      "    return all(a in header for a in\n",
      "    return all(header.get(a) for a in\n", "C20-R8"),
@@ -455,44 +459,93 @@ def r5_planes(ctx, prog, rule="C20-R5"):
     ctx.floor(rule, n, 4, "3-d / 4-d section reads in the package")
 
 
-def r6_bscale(ctx, prog, fi):
-    """raw values are scaled exactly once: data *= BSCALE"""
-    from ..core import as_update
-    ctx.rule("C20-R6", "scaled inputs: the file is opened with "
-             "do_not_scale_image_data, and the raw values are multiplied by "
-             "header['BSCALE'] exactly once, under `'BSCALE' in header` "
-             "(band values equal the rows of the physical image)")
-    opens = [c for c in walk_no_nested(fi.node) if isinstance(c, ast.Call)
-             and norm(c.func).endswith("fits.open")]
-    raw = any(any(k.arg == "do_not_scale_image_data" and
-                  isinstance(k.value, ast.Constant) and k.value.value is True
-                  for k in c.keywords) for c in opens)
-    ups = []
-    for st in walk_no_nested(fi.node):
-        u = as_update(st)
-        if u is not None and "BSCALE" in u[2]:
-            ups.append((st, u))
-    if not raw:
-        # astropy scales on read: no manual scaling may follow
-        ctx.check("C20-R6", fi, "astropy scales the data; no manual BSCALE",
-                  not ups, "the data are scaled by astropy AND by %s" %
-                  [norm(s_, 50) for s_, _ in ups], node=fi.node)
-        return
-    ok = len(ups) == 1 and ups[0][1][1] is ast.Mult
-    pm = {}
-    for x in ast.walk(fi.node):
-        for ch in ast.iter_child_nodes(x):
-            pm[ch] = x
-    guarded = bool(ups) and isinstance(pm.get(ups[0][0]), ast.If) and \
-        "BSCALE" in norm(pm[ups[0][0]].test) and \
-        isinstance(pm[ups[0][0]].test, ast.Compare) and \
-        isinstance(pm[ups[0][0]].test.ops[0], ast.In)
-    ctx.check("C20-R6", fi, "raw values scaled once: %s" %
-              [norm(s_, 50) for s_, _ in ups], ok and guarded,
-              "with do_not_scale_image_data the loaded values are raw: they "
-              "must be MULTIPLIED by BSCALE once (found %s)" %
-              [norm(s_, 50) for s_, _ in ups], node=ups[0][0] if ups
-              else fi.node)
+def r6_bscale(ctx, prog, fi=None, rule="C20-R6"):
+    """raw values are scaled exactly once: data *= BSCALE (shared by C20-R6
+    and C15-R7: every fits.open of fits_tools)"""
+    from .. import callgraph
+    from ..core import PKG, as_update
+    ctx.rule(rule, "scaled inputs: wherever a file is opened with "
+             "do_not_scale_image_data the raw values are multiplied by "
+             "header['BSCALE'] exactly once, as a whole array, under "
+             "`'BSCALE' in header` -- in the opening function or in every "
+             "function that calls it; where astropy scales on read no manual "
+             "scaling follows (band / expanded values equal the physical "
+             "image)")
+    g = callgraph.build(prog)
+    n = 0
+    for q, f_ in sorted(prog.functions.items()):
+        if not f_.module.endswith("fits_tools"):
+            continue
+        opens = [c for c in walk_no_nested(f_.node) if isinstance(c, ast.Call)
+                 and norm(c.func).endswith("fits.open")]
+        if not opens:
+            continue
+        n += 1
+        raw = any(any(k.arg == "do_not_scale_image_data" and
+                      isinstance(k.value, ast.Constant) and
+                      k.value.value is True for k in c.keywords)
+                  for c in opens)
+
+        def updates(node):
+            out = []
+            for st in walk_no_nested(node):
+                u = as_update(st)
+                if u is not None and "BSCALE" in u[2]:
+                    out.append((st, u))
+            return out
+        ups = updates(f_.node)
+        if not raw:
+            # astropy scales on read: no manual scaling may follow
+            ctx.check(rule, f_, "astropy scales the data in %s; no manual "
+                      "BSCALE" % f_.short, not ups,
+                      "the data are scaled by astropy AND by %s" %
+                      [norm(s_, 50) for s_, _ in ups], node=f_.node)
+            continue
+        users = [f_]
+        if not ups:
+            # the opening function only hands the HDUs on: its callers scale
+            users = [prog.functions[c_] for c_ in g.predecessors(q)
+                     if c_ in prog.functions] if q in g else []
+            if not users:
+                users = [f_]
+        for u_ in users:
+            ups = updates(u_.node)
+            ok = len(ups) == 1 and ups[0][1][1] is ast.Mult
+            pm = {}
+            for x in ast.walk(u_.node):
+                for ch in ast.iter_child_nodes(x):
+                    pm[ch] = x
+            guarded = bool(ups) and isinstance(pm.get(ups[0][0]), ast.If) \
+                and "BSCALE" in norm(pm[ups[0][0]].test) and \
+                isinstance(pm[ups[0][0]].test, ast.Compare) and \
+                isinstance(pm[ups[0][0]].test.ops[0], ast.In)
+            ctx.check(rule, u_, "raw values of %s scaled once in %s: %s" %
+                      (f_.name, u_.name, [norm(s_, 50) for s_, _ in ups]),
+                      ok and guarded,
+                      "%s opens the file with do_not_scale_image_data, so "
+                      "the values %s works with are raw: they must be "
+                      "MULTIPLIED by BSCALE once (found %s)" %
+                      (f_.short, u_.short, [norm(s_, 50) for s_, _ in ups]),
+                      node=ups[0][0] if ups else u_.node)
+            if ups:
+                st = ups[0][0]
+                tgt = st.target if isinstance(st, ast.AugAssign) \
+                    else st.targets[0]
+                whole = isinstance(tgt, ast.Name) or (
+                    isinstance(tgt, ast.Subscript) and all(
+                        (isinstance(e, ast.Slice) and e.lower is None and
+                         e.upper is None and e.step is None) or
+                        (isinstance(e, ast.Constant) and e.value is Ellipsis)
+                        for e in (tgt.slice.elts if isinstance(
+                            tgt.slice, ast.Tuple) else [tgt.slice])))
+                ctx.check(rule, u_, "the whole array is scaled: " +
+                          norm(tgt, 50), whole,
+                          "only the part `%s` of the loaded values is "
+                          "scaled: the loaded block holds just this band's "
+                          "rows (local indices), so for every band but the "
+                          "first the slice is empty or misplaced and the "
+                          "values stay raw" % norm(tgt, 50), node=st)
+    ctx.floor(rule, n, 2, "fits.open sites of fits_tools")
 
 
 def r7_fresh(ctx, prog):
